@@ -437,6 +437,18 @@ func (s *levelsController) levelTargets() targets {
 	if t.baseLevel == 0 {
 		t.baseLevel = 1
 	}
+
+	// The base level must not be below a non-empty level. When the last level shrinks, the
+	// size loop above moves the base level down again while tables are still sitting in the
+	// levels above it. An L0->Lbase compaction would then jump over those tables: its output
+	// (newer versions) would end up below them (older versions), and a deletion marker
+	// dropped at the bottom would make the older version in the skipped level visible again.
+	for i := 1; i < t.baseLevel; i++ {
+		if s.levels[i].getTotalSize() > 0 {
+			t.baseLevel = i
+			break
+		}
+	}
 	return t
 }
 
